@@ -1,5 +1,6 @@
 import Proofs.Delta
 import Proofs.DeltaRoot
+import Proofs.DeltaDict
 import Properties.C02
 /-!
 # C01 — applying `Delta(DeepDiff(t1, t2))` to `t1` reproduces `t2`
@@ -145,5 +146,29 @@ theorem C01_root_change_roundtrip (directed always : Bool) (t1 t2 : PyVal) (r : 
   rcases h with ⟨ud, rfl⟩ | rfl
   · exact ⟨t2, roundtrip_root_value directed always t1 t2 ud, Or.inl rfl⟩
   · exact roundtrip_root_type directed always t1 t2
+
+/-! ### flat dictionaries (a JSON object of scalars), end to end -/
+
+/-- **Round trip for every pair of flat dictionaries**: string keys (no key twice), values that are scalars
+(`None`, `bool`, `int`, `float`, `str`, `bytes`), any number of keys added, removed, changed in value or changed in type
+at once, every ordered configuration without path restrictions (any `threshold_to_diff_deeper`, so including the
+"too different" shortcut), directed or not, with or without `always_include_values`: the four phases that are used
+(`values_changed`, `type_changes`, `dictionary_item_added`, `dictionary_item_removed`) write pairwise different keys and
+the result is a dictionary `== t2`, with no error logged. -/
+theorem C01_flat_dict_roundtrip (cfg : DCfg) (hp : Diff.Plain cfg) (al : Align) (hashOf : PyVal → String) (directed always : Bool)
+    (kvs1 kvs2 : List (PyVal × PyVal))
+    (hs1 : StrKeys kvs1) (hs2 : StrKeys kvs2) (hn1 : (kvs1.map (·.1)).Nodup) (hn2 : (kvs2.map (·.1)).Nodup)
+    (hb1 : ∀ p ∈ kvs1, isBasic p.2 = true) (hb2 : ∀ p ∈ kvs2, isBasic p.2 = true)
+    (hpriv : ∀ k, k ∈ kvs1.map (·.1) ∨ k ∈ kvs2.map (·.1) → (cfg.ignorePrivate && isPrivate k) = false) :
+    ∃ r, applyDelta false (buildDelta directed always (.dict kvs1) (.dict kvs2) (deepDiff cfg al hashOf (.dict kvs1) (.dict kvs2))) (.dict kvs1)
+        = { root := r } ∧ pyEq r (.dict kvs2) = true :=
+  flat_dict_roundtrip cfg hp al hashOf directed always kvs1 kvs2 hs1 hs2 hn1 hn2 hb1 hb2 hpriv
+
+/-- the hypotheses are met by a pair that has an added key, a removed key, a changed value and a changed type -/
+example : let kvs1 : List (PyVal × PyVal) := [(.str "a", .int 1), (.str "b", .str "x"), (.str "c", .none), (.str "gone", .bool true)]
+    let kvs2 : List (PyVal × PyVal) := [(.str "a", .int 2), (.str "b", .int 7), (.str "c", .none), (.str "new", .float 25 1)]
+    StrKeys kvs1 ∧ StrKeys kvs2 ∧ (kvs1.map (·.1)).Nodup ∧ (kvs2.map (·.1)).Nodup ∧
+    (∀ p ∈ kvs1, isBasic p.2 = true) ∧ (∀ p ∈ kvs2, isBasic p.2 = true) := by
+  simp [StrKeys, isBasic]
 
 end Delta
